@@ -1,13 +1,216 @@
-/- C13 — first layer; see DESIGN.md §5 -/
-import UBidi.Model.Reorder
-import UBidi.Spec.UAX9
-import UBidi.Spec.Reorder
-namespace UBidi.Props.C13
-open UBidi
+/-
+  C13 — isolates isolate.  Stated on the Spec (UAX #9 itself, `UBidi.Spec.UAX9`).
 
-/-- the analysis of the empty text is empty and does not fail -/
-theorem empty_text (ds : DataSource) (d : Option Nat) :
-    (bidiInfo ds (Text.ofScalars []) d).levels = [] ∧ (bidiInfo ds (Text.ofScalars []) d).err = none := by
-  constructor <;> rfl
+  Layers:
+  * `C13_matching`          BD9: the PDI after a balanced content matches the initiator before it
+  * `C13_para_level`        P2/P3 do not look inside a matched isolate
+  * `C13_fsi_outside`       X5c: FSIs outside the pair resolve the same way
+  * `C13_state_restored`    X1–X8: at the matching PDI the machine is back in the state at the initiator
+  * `C13_explicit_outside`  X1–X8: explicit levels/types outside the pair do not depend on the content
+  * `C13_isolation`         X1–X10, W, N, I and the removed-character fill: the resolved level of every
+                            character outside a valid matched pair does not depend on the content
+
+  `IsoBalanced` is defined in `UBidi/Lemmas/C13Match.lean` (same namespace) because the helper
+  lemmas need it.
+-/
+import UBidi.Lemmas.C13Assemble
+import UBidi.Lemmas.C13Raw
+namespace UBidi.Props.C13
+open UBidi UBidi.Spec BidiClass
+
+/-- the PDI after a balanced content is the match of the initiator before it -/
+theorem C13_matching (w : List BidiClass) (hw : IsoBalanced w) (rest : List BidiClass) (d pos : Nat) :
+    Spec.matchingPDI (w ++ .PDI :: rest) d pos =
+      (if d = 0 then some (pos + w.length) else Spec.matchingPDI rest (d - 1) (pos + w.length + 1)) :=
+  matching_balanced w hw rest d pos
+
+/-- P2/P3 do not look inside a matched isolate: the paragraph level does not depend on the content -/
+theorem C13_para_level (pre suf w1 w2 : List BidiClass) (i : BidiClass) (hi : i = .LRI ∨ i = .RLI)
+    (h1 : IsoBalanced w1) (h2 : IsoBalanced w2) (forced : Option Nat) :
+    Spec.paraLevel forced (pre ++ i :: w1 ++ .PDI :: suf) = Spec.paraLevel forced (pre ++ i :: w2 ++ .PDI :: suf) := by
+  have hi' : isIsoInit i = true := by rcases hi with rfl | rfl <;> rfl
+  unfold paraLevel
+  cases forced with
+  | some l => rfl
+  | none =>
+    simp only
+    rw [firstStrong_outside i hi' w1 w2 h1 h2 pre.length pre suf _ _ (Nat.le_refl _) (Nat.lt_succ_self _)
+      (Nat.lt_succ_self _)]
+
+/-- X5c outside does not depend on the content: every FSI outside the pair resolves the same way
+    (and every other outside class is unchanged) -/
+theorem C13_fsi_outside (pre suf w1 w2 : List BidiClass) (i : BidiClass) (hi : i = .LRI ∨ i = .RLI)
+    (h1 : IsoBalanced w1) (h2 : IsoBalanced w2) :
+    let r1 := Spec.resolveFSI (pre ++ i :: w1 ++ .PDI :: suf)
+    let r2 := Spec.resolveFSI (pre ++ i :: w2 ++ .PDI :: suf)
+    r1.take (pre.length + 1) = r2.take (pre.length + 1) ∧
+    r1.drop (pre.length + 1 + w1.length) = r2.drop (pre.length + 1 + w2.length) := by
+  refine ⟨resolveFSI_take_outside i hi w1 w2 h1 h2 pre suf, ?_⟩
+  have e1 : pre ++ i :: w1 ++ PDI :: suf = (pre ++ i :: w1) ++ PDI :: suf := by simp
+  have e2 : pre ++ i :: w2 ++ PDI :: suf = (pre ++ i :: w2) ++ PDI :: suf := by simp
+  have l1 : pre.length + 1 + w1.length = (pre ++ i :: w1).length := by simp; omega
+  have l2 : pre.length + 1 + w2.length = (pre ++ i :: w2).length := by simp; omega
+  show List.drop _ _ = List.drop _ _
+  rw [l1, l2, e1, e2, resolveFSI_drop, resolveFSI_drop]
+
+/-- X1–X8: when the machine reaches the PDI after an isolate initiator (valid or overflowing,
+    FSI included) and a balanced content, it is back in the state it had at the initiator.
+    `xFinal pl s cs` is the machine state after the characters `cs` from state `s`. -/
+theorem C13_state_restored (pl : Nat) (s : XState) (i : BidiClass) (hi : i = .LRI ∨ i = .RLI ∨ i = .FSI)
+    (w : List BidiClass) (hw : IsoBalanced w) :
+    xFinal pl s (i :: w ++ [.PDI]) = s := by
+  have e : i :: w ++ [PDI] = (i :: w) ++ [PDI] := rfl
+  rw [e, xFinal_append]
+  exact pair_restores pl s i ((isIsoInit_iff i).2 hi) w hw
+
+private theorem take_drop_aux {α} (A : List α) (x : α) (M R : List α) (n : Nat) (hA : A.length = n) :
+    (A ++ (x :: M ++ R)).take (n + 1) = A ++ [x] ∧ (A ++ (x :: M ++ R)).drop (n + 1 + M.length) = R := by
+  subst hA
+  constructor
+  · rw [List.take_append, List.take_of_length_le (by omega)]; simp
+  · rw [List.drop_append]
+    rw [List.drop_of_length_le (by omega)]
+    have : A.length + 1 + M.length - A.length = M.length + 1 := by omega
+    simp [this]
+
+/-- X1–X8: every character outside the pair gets the same explicit level and type in both texts.
+    (The requested hypothesis "the initiator is valid in `pre`" is not needed for this layer: an
+    overflowing initiator is matched by its PDI through the overflow isolate count just the same.) -/
+theorem C13_explicit_outside (pl : Nat) (pre suf w1 w2 : List BidiClass) (i : BidiClass)
+    (hi : i = .LRI ∨ i = .RLI) (h1 : IsoBalanced w1) (h2 : IsoBalanced w2) :
+    let e1 := Spec.explicit pl (pre ++ i :: w1 ++ .PDI :: suf)
+    let e2 := Spec.explicit pl (pre ++ i :: w2 ++ .PDI :: suf)
+    e1.take (pre.length + 1) = e2.take (pre.length + 1) ∧
+    e1.drop (pre.length + 1 + w1.length) = e2.drop (pre.length + 1 + w2.length) := by
+  have hi' : isIsoInit i = true := by rcases hi with rfl | rfl <;> rfl
+  simp only [explicit, List.append_assoc, xRun_append, List.cons_append]
+  generalize xFinal pl _ pre = s
+  have x1 := xRun_pair pl s i hi' w1 h1 suf
+  have x2 := xRun_pair pl s i hi' w2 h2 suf
+  simp only [List.cons_append] at x1 x2
+  rw [x1, x2]
+  have lp : (xRun pl { stack := [{ level := pl, override := none, isolate := false }] } pre).length = pre.length :=
+    xRun_length _ _ _
+  have hM1 := xRun_length pl (xStep pl s i).1 w1
+  have hM2 := xRun_length pl (xStep pl s i).1 w2
+  have t1 := take_drop_aux _ (xStep pl s i).2 (xRun pl (xStep pl s i).1 w1)
+    ((topLevel pl s, applyOv s PDI) :: xRun pl s suf) _ lp
+  have t2 := take_drop_aux _ (xStep pl s i).2 (xRun pl (xStep pl s i).1 w2)
+    ((topLevel pl s, applyOv s PDI) :: xRun pl s suf) _ lp
+  rw [hM1] at t1
+  rw [hM2] at t2
+  simp only [List.cons_append] at t1 t2
+  exact ⟨t1.1.trans t2.1.symm, t1.2.trans t2.2.symm⟩
+
+/-- **Isolates isolate** (UAX #9 as written, `Spec.paragraphLevels`): if the initiator `i` (LRI, RLI,
+    or an FSI that X5c left unresolved and X5c treats as LRI) is valid where it stands — after
+    X1–X8 over `pre` both overflow counts are 0 and the level it pushes is at most 125 — then
+    replacing the text between `i` and its PDI by any other text without paragraph separator whose
+    isolate controls are balanced leaves the resolved level of every character of `pre`, of the
+    initiator, of the PDI and of every character of `suf` unchanged.  (The paragraph level `pl` is
+    the same for both texts by `C13_para_level`.)  No restriction on `pre`, `suf`, the contents:
+    they may contain X9-removed characters, embeddings, overrides, unmatched controls, brackets. -/
+theorem C13_isolation (pl : Nat) (pre suf c1 c2 : List Spec.Ch) (i pdi : Spec.Ch)
+    (hi : i.cls = .LRI ∨ i.cls = .RLI ∨ i.cls = .FSI) (hpdi : pdi.cls = .PDI)
+    (h1 : IsoBalanced (c1.map (·.cls))) (h2 : IsoBalanced (c2.map (·.cls)))
+    (hvalid :
+      let s := xFinal pl { stack := [{ level := pl, override := none, isolate := false }] } (pre.map (·.cls))
+      s.overflowIsolate = 0 ∧ s.overflowEmbedding = 0 ∧
+        (if i.cls == .RLI then Spec.leastOddAbove (Spec.topLevel pl s)
+         else Spec.leastEvenAbove (Spec.topLevel pl s)) ≤ Spec.maxDepth) :
+    let L1 := Spec.paragraphLevels pl (pre ++ i :: c1 ++ pdi :: suf)
+    let L2 := Spec.paragraphLevels pl (pre ++ i :: c2 ++ pdi :: suf)
+    L1.take (pre.length + 1) = L2.take (pre.length + 1) ∧
+    L1.drop (pre.length + 1 + c1.length) = L2.drop (pre.length + 1 + c2.length) := by
+  have hi' : isIsoInit i.cls = true := (isIsoInit_iff i.cls).2 hi
+  have hv : isoValid pl (stI pl pre) i.cls = true := by
+    obtain ⟨v1, v2, v3⟩ := hvalid
+    unfold isoValid isoLevel stI initState
+    rw [v1, v2]
+    simpa using v3
+  obtain ⟨a1, b1⟩ := side pl pre suf c1 i pdi hi' hpdi h1 hv
+  obtain ⟨a2, b2⟩ := side pl pre suf c2 i pdi hi' hpdi h2 hv
+  exact ⟨a1.trans a2.symm, b1.trans b2.symm⟩
+
+/-- **C13 end to end** (P2–P3, X5c, X1–X10, W, N, I, fill), on the raw classes: `applyX5c t` is the
+    paragraph `t` with the classes after X5c (`Spec.resolveFSI`), the paragraph level is
+    `Spec.paraLevel forced`.  For an LRI or RLI `i` that is valid where it stands (hypothesis
+    `hvalid`, on the X5c-resolved prefix), replacing a balanced, B-free content `c1` by another one
+    `c2` (both may contain FSIs, which X5c resolves inside) leaves the paragraph level and the
+    resolved level of every character of `pre`, of `i`, of `pdi` and of `suf` unchanged. -/
+theorem C13_isolation_raw (forced : Option Nat) (pre suf c1 c2 : List Spec.Ch) (i pdi : Spec.Ch)
+    (hi : i.cls = .LRI ∨ i.cls = .RLI) (hpdi : pdi.cls = .PDI)
+    (h1 : IsoBalanced (c1.map (·.cls))) (h2 : IsoBalanced (c2.map (·.cls)))
+    (hvalid :
+      let t1 := pre ++ i :: c1 ++ pdi :: suf
+      let pl := Spec.paraLevel forced (t1.map (·.cls))
+      let s := xFinal pl { stack := [{ level := pl, override := none, isolate := false }] }
+        ((Spec.resolveFSI (t1.map (·.cls))).take pre.length)
+      s.overflowIsolate = 0 ∧ s.overflowEmbedding = 0 ∧
+        (if i.cls == .RLI then Spec.leastOddAbove (Spec.topLevel pl s)
+         else Spec.leastEvenAbove (Spec.topLevel pl s)) ≤ Spec.maxDepth) :
+    let t1 := pre ++ i :: c1 ++ pdi :: suf
+    let t2 := pre ++ i :: c2 ++ pdi :: suf
+    let pl1 := Spec.paraLevel forced (t1.map (·.cls))
+    let pl2 := Spec.paraLevel forced (t2.map (·.cls))
+    let L1 := Spec.paragraphLevels pl1 (applyX5c t1)
+    let L2 := Spec.paragraphLevels pl2 (applyX5c t2)
+    pl1 = pl2 ∧
+    L1.take (pre.length + 1) = L2.take (pre.length + 1) ∧
+    L1.drop (pre.length + 1 + c1.length) = L2.drop (pre.length + 1 + c2.length) := by
+  intro t1 t2 pl1 pl2 L1 L2
+  have hne : i.cls ≠ FSI := by rcases hi with h | h <;> rw [h] <;> decide
+  have ecls : ∀ c : List Ch, (pre ++ i :: c ++ pdi :: suf).map (·.cls) =
+      pre.map (·.cls) ++ i.cls :: c.map (·.cls) ++ PDI :: suf.map (·.cls) := by intro c; simp [hpdi]
+  have hpl : pl1 = pl2 := by
+    show paraLevel forced (t1.map (·.cls)) = paraLevel forced (t2.map (·.cls))
+    rw [ecls, ecls]
+    exact C13_para_level _ _ _ _ _ hi h1 h2 forced
+  refine ⟨hpl, ?_⟩
+  obtain ⟨pre1, c1', lp1, lc1, k1, hp1, d1⟩ := applyX5c_decomp pre suf c1 i pdi hne hpdi
+  obtain ⟨pre2, c2', lp2, lc2, k2, hp2, d2⟩ := applyX5c_decomp pre suf c2 i pdi hne hpdi
+  -- the resolved prefixes agree
+  have hpre : pre1 = pre2 := by
+    have hcls : pre1.map (·.cls) = pre2.map (·.cls) := by
+      rw [hp1, hp2, ecls, ecls]
+      have := (C13_fsi_outside (pre.map (·.cls)) (suf.map (·.cls)) (c1.map (·.cls)) (c2.map (·.cls)) i.cls hi
+        h1 h2).1
+      simp only [List.length_map] at this
+      have t := congrArg (List.take pre.length) this
+      rwa [List.take_take, List.take_take, Nat.min_eq_left (Nat.le_succ _)] at t
+    -- same characters, same classes
+    have e1 : applyX5c t1 = pre1 ++ i :: c1' ++ pdi :: applyX5c suf := d1
+    have e2 : applyX5c t2 = pre2 ++ i :: c2' ++ pdi :: applyX5c suf := d2
+    have b1 : (applyX5c t1).take pre.length = pre1 := by
+      rw [e1, List.append_assoc, List.take_left' lp1]
+    have b2 : (applyX5c t2).take pre.length = pre2 := by
+      rw [e2, List.append_assoc, List.take_left' lp2]
+    apply List.ext_getElem (by omega)
+    intro n hn1 hn2
+    have g1 : pre1[n].cls = pre2[n].cls := by
+      have := congrArg (fun l => l[n]?) hcls
+      simpa [hn1, hn2] using this
+    have q1 : pre1[n].brk = pre[n].brk := by
+      have : pre1[n] = ((applyX5c t1).take pre.length)[n]'(by rw [b1]; exact hn1) := by simp [b1]
+      rw [this]
+      simp [applyX5c, t1, List.getElem_append_left (show n < pre.length by omega)]
+    have q2 : pre2[n].brk = pre[n].brk := by
+      have : pre2[n] = ((applyX5c t2).take pre.length)[n]'(by rw [b2]; exact hn2) := by simp [b2]
+      rw [this]
+      simp [applyX5c, t2, List.getElem_append_left (show n < pre.length by omega)]
+    cases hx : pre1[n]; cases hy : pre2[n]
+    simp_all
+  subst hpre
+  have hb1 : IsoBalanced (c1'.map (·.cls)) := isoBalanced_of_kind _ _ k1.symm h1
+  have hb2 : IsoBalanced (c2'.map (·.cls)) := isoBalanced_of_kind _ _ k2.symm h2
+  show List.take _ (paragraphLevels pl1 (applyX5c t1)) = List.take _ (paragraphLevels pl2 (applyX5c t2)) ∧
+    List.drop _ (paragraphLevels pl1 (applyX5c t1)) = List.drop _ (paragraphLevels pl2 (applyX5c t2))
+  rw [← hpl]
+  have e1 : applyX5c t1 = pre1 ++ i :: c1' ++ pdi :: applyX5c suf := d1
+  have e2 : applyX5c t2 = pre1 ++ i :: c2' ++ pdi :: applyX5c suf := d2
+  rw [e1, e2, ← lp1, ← lc1, ← lc2]
+  apply C13_isolation pl1 pre1 (applyX5c suf) c1' c2' i pdi (by rcases hi with h | h <;> simp [h]) hpdi hb1 hb2
+  rw [hp1]
+  exact hvalid
 
 end UBidi.Props.C13
